@@ -317,7 +317,8 @@ def harness_matches_binary(g, shell):
         return x["status"] != "ok"
 
     def body(s):
-        return None if s is None else s.split("\n", 1)[-1]  # first line = signature with the build's git describe
+        # every script has one signature line carrying the build's `git describe` (first line; second for zsh)
+        return None if s is None else "\n".join(l for l in s.split("\n") if "completion script generated by" not in l)
     return x["status"] == "ok" and body(x["script"]) == body(ref["script"]) and x["dfa"] == ref["dfa"] and x["regex"] == ref["regex"]
 
 
